@@ -100,6 +100,10 @@ class AsyncBrkWorld:
                 return ("val", task.ops)
             if r == "timeout":
                 raise TimeoutError("upstream timeout")
+            if r == "coe":
+                # a downstream component's breaker is open: the operation raises the library's
+                # own CircuitOpenError
+                raise CircuitOpenError("downstream circuit is open")
             if r == "xc:T":
                 # a fallback that fails inside `except CircuitOpenError:` (implicit chaining)
                 try:
@@ -235,6 +239,16 @@ class AsyncBrkWorld:
             else:
                 want_kind = "failure"
             got_kinds = [r[0] for r in records]
+            is_probe = any(sp.mode == HALF and sp.probe is not None and sp.probe == t.cids.get(c)
+                           for c, sp in self.specs.items())
+            if not got_kinds and t.admitted and is_probe:
+                self.diverged = ("c07.settlement-kind",
+                                 f"task {t.kind} ended {t.result!r} ({'cancelled' if k == 'cancel' else ev[2]}) "
+                                 f"as the half-open probe without telling the breaker anything; must be told {want_kind}")
+                return
+            if k == "resume" and ev[2] == "coe":
+                # how this ending is recorded is not defined (any single record is accepted)
+                want_kind = got_kinds[0] if len(got_kinds) == 1 else want_kind
             if got_kinds and got_kinds != [want_kind]:
                 self.diverged = ("c07.settlement-kind",
                                  f"task {t.kind} ended {t.result!r} ({'cancelled' if k == 'cancel' else ev[2]}): "
@@ -279,7 +293,7 @@ class AsyncBrkWorld:
         now = self.clock.now
         outs = []
         for t in self.tasks:
-            outs.append((t.kind, t.ops, tuple(sorted(
+            outs.append((t.kind, t.ops, _fingerprint(t.coro, now), tuple(sorted(
                 (c, s.probe == t.cids.get(c), s.is_stale(t.cids.get(c)))
                 for c, s in self.specs.items()))))
         return (breaker_canon(self.b, now),
@@ -291,6 +305,47 @@ class AsyncBrkWorld:
                 t.coro.close()
             except BaseException:  # noqa: BLE001
                 pass
+
+
+_SIMPLE = (bool, int, str, type(None))
+
+
+def _simple(v, now):
+    if isinstance(v, _SIMPLE):
+        return v
+    if isinstance(v, float):
+        return round(v - now, 9) if v >= 500 else v   # instants are time-translated
+    if hasattr(v, "value") and type(v).__module__.startswith("redress"):   # enums
+        return str(v)
+    return None
+
+
+def _fingerprint(coro, now):
+    """Per-call state the library keeps *inside* a suspended call (locals of its coroutine frames,
+    fields of its redress context objects).  Two histories whose breaker and reference states agree
+    but whose suspended calls remember different things must not be merged."""
+    out = []
+    c, depth = coro, 0
+    while c is not None and depth < 12:
+        frame = getattr(c, "cr_frame", None) or getattr(c, "gi_frame", None)
+        if frame is None:
+            break
+        for name, val in sorted(frame.f_locals.items()):
+            s = _simple(val, now)
+            if s is not None or val is None:
+                if name not in ("self",):
+                    out.append((depth, name, s))
+            elif type(val).__module__.startswith("redress.policy") and not callable(val):
+                fields = getattr(val, "__dict__", None)
+                if fields is None and hasattr(type(val), "__slots__"):
+                    fields = {k: getattr(val, k, None) for k in type(val).__slots__}
+                if isinstance(fields, dict):
+                    out.append((depth, name, type(val).__name__, tuple(
+                        (k, _simple(fv, now)) for k, fv in sorted(fields.items())
+                        if _simple(fv, now) is not None)))
+        c = getattr(c, "cr_await", None) or getattr(c, "gi_yieldfrom", None)
+        depth += 1
+    return tuple(out)
 
 
 def replay(cfg, hist):
@@ -326,6 +381,7 @@ def bfs_async(cfg, depth, max_out, kinds, seed=0):
                        ("cancel", i)]
             if cfg.get("chained"):
                 events.append(("resume", i, "xc:T"))
+                events.append(("resume", i, "coe"))
         for ev in events:
             h2 = hist + (ev,)
             w = replay(cfg, h2)
